@@ -492,7 +492,7 @@ func decodeConstructor(p *Prog, fn *ssa.Function) ([]decodePath, string) {
 func runR15(c *Ctx) {
 	p := c.P
 	// (1) colConstExpr: constructor paths x execute
-	if ctor, exe := p.Func("", "newColConstExpr"), p.Func("", "colConstExpr.execute"); ctor != nil && exe != nil {
+	if ctor, exe := p.anchorByResult("colConstExpr", "newColConstExpr"), p.Func("", "colConstExpr.execute"); ctor != nil && exe != nil {
 		paths, why := decodeConstructor(p, ctor)
 		if len(paths) == 0 {
 			c.undecided("qframe.newColConstExpr|decoding paths", p.pos(ctor.Pos()), "cannot enumerate: "+why)
@@ -547,7 +547,7 @@ func runR15(c *Ctx) {
 			// the list handed to newColColExpr
 			var listArg ssa.Value
 			for _, call := range pe.calls {
-				if callee := call.Call.StaticCallee(); callee != nil && callee.Name() == "newColColExpr" {
+				if callee := call.Call.StaticCallee(); callee != nil && callee == p.anchorByResult("colColExpr", "newColColExpr") {
 					listArg = call.Call.Args[0]
 				}
 			}
@@ -577,7 +577,7 @@ func runR15(c *Ctx) {
 		c.undecided("qframe.colConstExpr", "-", "constructor or execute not found")
 	}
 	// (2) colColExpr: fields from positions 1, 2; Instruction SrcCol1/SrcCol2 from srcCol1/srcCol2
-	if ctor, exe := p.Func("", "newColColExpr"), p.Func("", "colColExpr.execute"); ctor != nil && exe != nil {
+	if ctor, exe := p.anchorByResult("colColExpr", "newColColExpr"), p.Func("", "colColExpr.execute"); ctor != nil && exe != nil {
 		paths, _ := decodeConstructor(p, ctor)
 		for _, dp := range paths {
 			key := "qframe.colColExpr|decoding " + dp.descr
@@ -656,7 +656,7 @@ func runR15(c *Ctx) {
 		var listArg ssa.Value
 		eachInstr(exe, func(in ssa.Instruction) {
 			if call, ok := in.(*ssa.Call); ok {
-				if callee := call.Call.StaticCallee(); callee != nil && callee.Name() == "newColColExpr" {
+				if callee := call.Call.StaticCallee(); callee != nil && callee == p.anchorByResult("colColExpr", "newColColExpr") {
 					listArg = call.Call.Args[0]
 				}
 			}
